@@ -60,9 +60,11 @@ def reachable (h : Heap) : List Nat := markFrom h.objs h.objs.length h.roots
 
 inductive Cmd where
   | newArray (tok : Nat)              -- the program makes a NumPy array that owns a fresh buffer
-  | npView (o : Nat)                  -- a NumPy view (`reshape(-1)`, slicing): `base` keeps `o` alive
+  | npView (o : Nat)                  -- a NumPy view (`reshape(-1)`, `to_numpy`'s transpose): `base` keeps `o` alive
   | mkStorage (srcs : List Nat)       -- `Storage.from_constituent_arrays(arrs)`
   | opStorage (toks : List Nat)       -- result of add/reshape/asformat: `owns_memory=True`, fresh buffers
+  | opAliased (a : Nat)               -- DEFECT (rank-1 `reshape` to rank 1): an `owns_memory=True` result whose
+                                      --   fields are the operand's buffers (MLIR folds the reshape away)
   | mkArray (s : Nat)                 -- `Array(storage=s, shape=…)`
   | view (a k : Nat)                  -- the `k`-th array of `a.get_constituent_arrays()`
   | alias (o : Nat)                   -- one more reference to an object (`asformat` to the same format …)
@@ -74,7 +76,7 @@ inductive Cmd where
 def mkObj (cfg : Cfg) (h : Heap) : Cmd → Option (Obj × List Nat)
   | .newArray tok => some ({ kind := .ndarray, refs := [], bufs := [h.nbuf], owns := [h.nbuf] }, [tok])
   | .npView o =>
-    if (reachable h).contains o && (h.obj o).kind == .ndarray then
+    if (reachable h).contains o && ((h.obj o).kind == .ndarray || (h.obj o).kind == .view) then
       some ({ kind := .ndarray, refs := [o], bufs := (h.obj o).bufs, owns := [] }, [])
     else none
   | .mkStorage srcs =>
@@ -85,6 +87,12 @@ def mkObj (cfg : Cfg) (h : Heap) : Cmd → Option (Obj × List Nat)
   | .opStorage toks =>
     some ({ kind := .storage, refs := [], bufs := List.range' h.nbuf toks.length,
             owns := List.range' h.nbuf toks.length }, toks)
+  | .opAliased a =>
+    if (reachable h).contains a && (h.obj a).kind == .array then
+      match (h.obj a).refs with
+      | [s] => some ({ kind := .storage, refs := [], bufs := (h.obj s).bufs, owns := (h.obj s).bufs }, [])
+      | _ => none
+    else none
   | .mkArray s =>
     if (reachable h).contains s && (h.obj s).kind == .storage then
       some ({ kind := .array, refs := [s], bufs := [], owns := [] }, [])
@@ -99,6 +107,14 @@ def mkObj (cfg : Cfg) (h : Heap) : Cmd → Option (Obj × List Nat)
       | _ => none
     else none
   | _ => none
+
+/-- the commands of the excluded region: results that alias their operand -/
+def Cmd.aliasing : Cmd → Bool
+  | .opAliased _ => true
+  | _ => false
+
+/-- a history is excluded when it contains a rank-1 → rank-1 `reshape` (the aliasing result) -/
+def ExcludedHistory (cs : List Cmd) : Bool := cs.any Cmd.aliasing
 
 /-- add a new object; the program holds a reference to it -/
 def Heap.push (h : Heap) (x : Obj) (toks : List Nat) : Heap :=
